@@ -29,7 +29,13 @@ class RealInterp(Interp):
             if op == 'fadd': return A + B
             if op == 'fsub': return A - B
             if op == 'fmul': return A * B
-            if op == 'fdiv': return A / B
+            if op == 'fdiv':
+                # a / d2 with d2 a squared distance the spec names: d2 * u^2 == 1 with u > 0, hence a / d2 == a * u * u  (keeps both sides polynomial)
+                for (d2, u) in s.sqrt_table:
+                    if z3.is_true(z3.simplify(B == d2)) or z3.is_true(z3.simplify(z3.simplify(B - d2) == 0)):
+                        s.div_rewritten = getattr(s, 'div_rewritten', 0) + 1
+                        return A * u * u
+                return A / B
             raise Unsupported('real ' + op)
         return Interp.binop(s, op, a, b, t)
 
@@ -44,6 +50,10 @@ class RealInterp(Interp):
             import math
             return math.sqrt(x)
         s.nsqrt += 1
+        for (d2, u) in s.sqrt_table:
+            if z3.is_true(z3.simplify(z3.simplify(x - u * u) == 0)):
+                s.sqrt_matched += 1
+                return u
         for (d2, u) in s.sqrt_table:
             sol = z3.Solver(); sol.set('timeout', 20000)
             sol.add(s.constraints); sol.add(x * d2 != 1)
@@ -66,6 +76,21 @@ class RealInterp(Interp):
         if name.startswith('llvm.fabs') and isinstance(a[0], z3.ArithRef):
             return z3.If(a[0] >= 0, a[0], -a[0])
         return Interp.external(s, name, a)
+
+
+def _root_syms(e):
+    """names of the square-root symbols (u_*, sqrt*) occurring in a z3 expression"""
+    out = set(); seen = set(); stack = [e]
+    while stack:
+        x = stack.pop()
+        i = x.get_id()
+        if i in seen: continue
+        seen.add(i)
+        if z3.is_const(x) and x.decl().kind() == z3.Z3_OP_UNINTERPRETED:
+            n = x.decl().name()
+            if n.startswith('u_') or n.startswith('sqrt'): out.add(n)
+        else: stack.extend(x.children())
+    return out
 
 
 def spec(routine, ns, nt, I):
@@ -190,9 +215,20 @@ def run_query(ctx, name, defines, routine, ns, nt, per_goal_timeout=120):
     comp = ['force x', 'force y', 'force z', 'potential']
     for k in range(4 * (ns + nt)):
         who = ('source %d' % (k // 4)) if k < 4 * ns else ('target %d' % ((k - 4 * ns) // 4))
+        # cone of influence: only the square-root symbols that occur in this component matter; constraints about other pairs are dropped
+        # (sound for 'unsat': fewer assumptions); a 'sat' answer is re-solved under all constraints before it is used
+        goal = it.outputs[k] != exp[k]
+        roots = _root_syms(goal)
+        cons_k = [c for c in it.constraints if _root_syms(c) <= roots]
         sol = z3.Solver(); sol.set('timeout', per_goal_timeout * 1000)
-        sol.add(it.constraints); sol.add(it.outputs[k] != exp[k])
-        ts = time.time(); r = sol.check(); dt = time.time() - ts
+        sol.add(cons_k); sol.add(goal)
+        ts = time.time(); r = sol.check()
+        if r == z3.sat and len(cons_k) < len(it.constraints):
+            sol2 = z3.Solver(); sol2.set('timeout', per_goal_timeout * 1000); sol2.add(it.constraints); sol2.add(goal)
+            r2 = sol2.check()
+            if r2 == z3.sat: sol = sol2
+            elif r2 == z3.unsat: r = z3.unsat
+        dt = time.time() - ts
         ctx.counters['solver_calls'] += 1; ctx.counters['solver_s'] += dt
         results.append((who, comp[k % 4], str(r), round(dt, 2)))
         if r == z3.unsat:
